@@ -693,3 +693,186 @@ Proof.
   apply chain_learner_linv in E3; [|exact L2]. destruct E3 as [L3 S3].
   rewrite S3, S2. specialize (S1 x). cbn in S1. tauto.
 Qed.
+
+Lemma make_voter_ln mi mb li c p id c' p' :
+  make_voter mi mb li c p id = (c', p') -> forall x, In x (c_learners_next c') -> In x (c_learners_next c).
+Proof.
+  unfold make_voter, init_progress. intros H x. destruct (alookup p id); inversion H; subst; cbn; rewrite ?sremove_In; tauto.
+Qed.
+
+Lemma cc_remove_ln c p id c' p' :
+  cc_remove c p id = (c', p') -> forall x, In x (c_learners_next c') -> In x (c_learners_next c).
+Proof.
+  unfold cc_remove. intros H x. destruct (negb _); [inversion H; subst; tauto|].
+  destruct (smem _ _); inversion H; subst; cbn; rewrite sremove_In; tauto.
+Qed.
+
+Definition einv (c : config) : Prop := forall x, In x (c_learners_next c) -> smem (c_outgoing c) x = true.
+
+Lemma make_learner_sets mi mb li c p id c' p' :
+  linv c p -> einv c -> make_learner mi mb li c p id = (c', p') ->
+  einv c' /\
+  (forall x, In x (c_learners c') <-> (x = id /\ smem (c_outgoing c) id = false) \/ In x (c_learners c)) /\
+  (forall x, In x (c_learners_next c') <-> (x = id /\ smem (c_outgoing c) id = true) \/ In x (c_learners_next c)).
+Proof.
+  intros (A & B & C & D) EI H. unfold make_learner, init_progress in H.
+  destruct (alookup p id) as [pr|] eqn:E.
+  2:{ assert (SO : smem (c_outgoing c) id = false).
+      { destruct (smem (c_outgoing c) id) eqn:SM; [|reflexivity]. apply D in SM. unfold amem in SM. rewrite E in SM. discriminate. }
+      inversion H; subst; clear H; unfold einv; cbn. rewrite SO.
+      split; [exact EI|]. split; intros x; rewrite ?sinsert_In; intuition congruence. }
+  destruct (pr_is_learner pr) eqn:PL.
+  { inversion H; subst. pose proof (A _ _ E PL) as IL. pose proof (C _ IL) as SO. rewrite SO.
+    split; [exact EI|]. split; intros x; intuition (subst; auto); congruence. }
+  assert (NL : ~ In id (c_learners c)).
+  { intros I. destruct (B _ I) as (q & Q & F). congruence. }
+  unfold cc_remove in H. assert (HP : has_progress p id = true) by (unfold has_progress, amem; rewrite E; reflexivity).
+  rewrite HP in H. cbn [negb] in H.
+  destruct (smem (c_outgoing c) id) eqn:SM; cbn in H; rewrite SM in H; inversion H; subst; clear H; unfold einv; cbn.
+  - split; [intros x I; apply sinsert_In in I; destruct I as [->|I]; [exact SM|apply sremove_In in I; apply EI; tauto]|].
+    split; intros x; rewrite ?sinsert_In, ?sremove_In.
+    + split; [tauto|]. intros [[_ F]|I]; [discriminate|]. split; [exact I|]. intros ->. auto.
+    + destruct (N.eq_dec x id); intuition auto.
+  - assert (NN : ~ In id (c_learners_next c)) by (intros I; apply EI in I; congruence).
+    split; [intros x I; apply sremove_In in I; apply EI; tauto|].
+    split; intros x; rewrite ?sinsert_In, ?sremove_In.
+    + destruct (N.eq_dec x id); intuition auto.
+    + split; [tauto|]. intros [[_ F]|I]; [discriminate|]. split; [exact I|]. intros ->. auto.
+Qed.
+
+Section SegsL.
+Variables mi mb li : N.
+Variable rest : list cc_single.
+
+Lemma seg_remove_l : forall ids c p, linv c p -> einv c ->
+  exists c1 p1, cc_apply mi mb li c p (map (mkCCS CCRemoveNode) ids ++ rest) = cc_apply mi mb li c1 p1 rest /\
+    linv c1 p1 /\ einv c1 /\ c_outgoing c1 = c_outgoing c /\
+    (forall x, In x (c_learners c1) -> In x (c_learners c)) /\
+    (forall x, In x (c_learners_next c1) -> In x (c_learners_next c)).
+Proof.
+  induction ids as [|id ids IH]; intros c p LI EI.
+  - exists c, p. cbn. intuition auto.
+  - cbn [map app cc_apply ccs_node ccs_type]. destruct (N.eqb id 0); [apply IH; assumption|].
+    destruct (cc_remove c p id) as [c' p'] eqn:R.
+    pose proof (cc_remove_ln _ _ _ _ _ R) as LN.
+    apply cc_remove_linv in R; [|exact LI]. destruct R as (L1 & O1 & S1 & _).
+    destruct (IH c' p' L1) as (c1 & p1 & E & L2 & E2 & O2 & S2 & N2).
+    { intros x I. rewrite O1. apply EI. apply LN. exact I. }
+    exists c1, p1. split; [exact E|]. split; [exact L2|]. split; [exact E2|]. split; [congruence|]. split; auto.
+Qed.
+
+Lemma seg_add_l : forall ids c p, linv c p -> einv c ->
+  exists c1 p1, cc_apply mi mb li c p (map (mkCCS CCAddNode) ids ++ rest) = cc_apply mi mb li c1 p1 rest /\
+    linv c1 p1 /\ einv c1 /\ c_outgoing c1 = c_outgoing c /\
+    (forall x, In x (c_learners c1) -> In x (c_learners c)) /\
+    (forall x, In x (c_learners_next c1) -> In x (c_learners_next c)).
+Proof.
+  induction ids as [|id ids IH]; intros c p LI EI.
+  - exists c, p. cbn. intuition auto.
+  - cbn [map app cc_apply ccs_node ccs_type]. destruct (N.eqb id 0); [apply IH; assumption|].
+    destruct (make_voter mi mb li c p id) as [c' p'] eqn:R.
+    pose proof (make_voter_ln _ _ _ _ _ _ _ _ R) as LN.
+    apply make_voter_linv in R; [|exact LI]. destruct R as (L1 & O1 & S1 & _).
+    destruct (IH c' p' L1) as (c1 & p1 & E & L2 & E2 & O2 & S2 & N2).
+    { intros x I. rewrite O1. apply EI. apply LN. exact I. }
+    exists c1, p1. split; [exact E|]. split; [exact L2|]. split; [exact E2|]. split; [congruence|]. split; auto.
+Qed.
+
+Lemma seg_learner_l : forall ids c p, linv c p -> einv c ->
+  exists c1 p1, cc_apply mi mb li c p (map (mkCCS CCAddLearnerNode) ids ++ rest) = cc_apply mi mb li c1 p1 rest /\
+    linv c1 p1 /\ einv c1 /\ c_outgoing c1 = c_outgoing c /\
+    (forall x, In x (c_learners c1) <-> (In x ids /\ x <> 0 /\ smem (c_outgoing c) x = false) \/ In x (c_learners c)) /\
+    (forall x, In x (c_learners_next c1) <-> (In x ids /\ x <> 0 /\ smem (c_outgoing c) x = true) \/ In x (c_learners_next c)).
+Proof.
+  induction ids as [|id ids IH]; intros c p LI EI.
+  - exists c, p. cbn. intuition auto.
+  - cbn [map app cc_apply ccs_node ccs_type]. destruct (N.eqb_spec id 0) as [Z|NZ].
+    + destruct (IH c p LI EI) as (c1 & p1 & E & L2 & E2 & O2 & S2 & N2).
+      exists c1, p1. split; [exact E|]. split; [exact L2|]. split; [exact E2|]. split; [exact O2|].
+      split; intros x; rewrite ?S2, ?N2; cbn [In]; intuition (subst; auto); congruence.
+    + destruct (make_learner mi mb li c p id) as [c' p'] eqn:R.
+      pose proof (make_learner_sets _ _ _ _ _ _ _ _ LI EI R) as (E1 & SL & SN).
+      apply make_learner_linv in R; [|exact LI]. destruct R as (L1 & O1 & _).
+      destruct (IH c' p' L1 E1) as (c1 & p1 & E & L2 & E2 & O2 & S2 & N2).
+      exists c1, p1. split; [exact E|]. split; [exact L2|]. split; [exact E2|]. split; [congruence|].
+      split; intros x; rewrite ?S2, ?N2, ?SL, ?SN, ?O1; cbn [In]; intuition (subst; auto).
+Qed.
+End SegsL.
+
+(* Restore of a joint ConfState into a fresh tracker: the ids named as Learners or
+   LearnersNext become learners when they are not outgoing voters and staged learners when
+   they are (id 0 skipped) *)
+Theorem restore_learners_joint_fresh mi mb li cs c p :
+  cc_restore (make_tracker mi mb) li cs = inl (c, p) -> cs_voters_outgoing cs <> [] ->
+  forall x,
+    (In x (c_learners c) <->
+       (In x (cs_learners cs) \/ In x (cs_learners_next cs)) /\ x <> 0 /\ ~ In x (cs_voters_outgoing cs)) /\
+    (In x (c_learners_next c) <->
+       (In x (cs_learners cs) \/ In x (cs_learners_next cs)) /\ x <> 0 /\ In x (cs_voters_outgoing cs)).
+Proof.
+  unfold cc_restore, to_cc_single. intros H NO x.
+  destruct (map (mkCCS CCAddNode) (cs_voters_outgoing cs)) as [|o os] eqn:EO.
+  { destruct (cs_voters_outgoing cs); [congruence|discriminate]. }
+  rewrite <- EO in H. clear EO o os.
+  destruct (chain_simple _ li _) as [t'|e] eqn:EC; [|discriminate].
+  pose proof (chain_add_voters _ _ _ _ EC) as VO. cbn in VO.
+  assert (L0 : linv (t_config (make_tracker mi mb)) (t_progress (make_tracker mi mb))).
+  { unfold linv. cbn. repeat split; intros; try contradiction; discriminate. }
+  apply chain_add_linv in EC; [|exact L0]. destruct EC as [(A & B & C & D) S1]. cbn in S1.
+  unfold changer_enter_joint in H.
+  destruct (check_and_return (cfg_clone (t_config t')) (t_progress t')) as [[c0 p0]|] eqn:E0; [|discriminate].
+  apply check_and_return_ok in E0. destruct E0 as (-> & -> & I0).
+  destruct (joint _) eqn:J; [discriminate|].
+  destruct (N.eqb (nlen _) 0); [discriminate|].
+  set (c1 := cfg_with_outgoing _ _) in H.
+  assert (LN0 : c_learners_next (t_config t') = []).
+  { apply check_invariants_sound in I0. destruct I0 as (_ & _ & _ & W4). cbn in W4.
+    unfold joint in J. cbn in J. apply negb_false_iff, nlen_zero in J. apply W4 in J. tauto. }
+  assert (LI1 : linv c1 (t_progress t')).
+  { subst c1. unfold linv. cbn. split; [exact A|]. split; [exact B|]. split; [intros id I; apply S1 in I; contradiction|].
+    intros id S. apply smem_In in S.
+    unfold check_invariants in I0. repeat (apply andb_true_iff in I0; destruct I0 as [I0 _]).
+    rewrite forallb_forall in I0. apply I0. unfold voter_ids. apply joint_ids_In. left. exact S. }
+  assert (EI1 : einv c1).
+  { subst c1. unfold einv. cbn. rewrite LN0. intros y []. }
+  assert (SO : forall y, smem (c_outgoing c1) y = true <-> In y (cs_voters_outgoing cs) /\ y <> 0).
+  { intros y. subst c1. cbn. rewrite smem_In, VO. tauto. }
+  assert (L1e : forall y, ~ In y (c_learners c1)) by (intros y I; subst c1; cbn in I; apply S1 in I; exact I).
+  assert (N1e : forall y, ~ In y (c_learners_next c1)) by (intros y I; subst c1; cbn in I; rewrite LN0 in I; exact I).
+  destruct (seg_remove_l (t_max_inflight t') (t_max_inflight_bytes t') li
+              (map (mkCCS CCAddNode) (cs_voters cs) ++ map (mkCCS CCAddLearnerNode) (cs_learners cs) ++
+               map (mkCCS CCAddLearnerNode) (cs_learners_next cs))
+              (cs_voters_outgoing cs) c1 (t_progress t') LI1 EI1) as (c2 & p2 & E2 & LI2 & EI2 & O2 & SL2 & SN2).
+  rewrite E2 in H. clear E2.
+  destruct (seg_add_l (t_max_inflight t') (t_max_inflight_bytes t') li
+              (map (mkCCS CCAddLearnerNode) (cs_learners cs) ++ map (mkCCS CCAddLearnerNode) (cs_learners_next cs))
+              (cs_voters cs) c2 p2 LI2 EI2) as (c3 & p3 & E3 & LI3 & EI3 & O3 & SL3 & SN3).
+  rewrite E3 in H. clear E3.
+  destruct (seg_learner_l (t_max_inflight t') (t_max_inflight_bytes t') li
+              (map (mkCCS CCAddLearnerNode) (cs_learners_next cs)) (cs_learners cs) c3 p3 LI3 EI3)
+    as (c4 & p4 & E4 & LI4 & EI4 & O4 & SL4 & SN4).
+  rewrite E4 in H. clear E4.
+  rewrite <- (app_nil_r (map (mkCCS CCAddLearnerNode) (cs_learners_next cs))) in H.
+  destruct (seg_learner_l (t_max_inflight t') (t_max_inflight_bytes t') li [] (cs_learners_next cs) c4 p4 LI4 EI4)
+    as (c5 & p5 & E5 & LI5 & EI5 & O5 & SL5 & SN5).
+  rewrite E5 in H. clear E5.
+  cbn [cc_apply] in H. destruct (N.eqb (nlen (c_voters c5)) 0); [discriminate|].
+  apply check_and_return_ok in H. destruct H as (-> & -> & _).
+  cbn [cfg_with_auto_leave c_learners c_learners_next].
+  rewrite SL5, SN5, SL4, SN4, O4, O3, O2.
+  assert (L3e : ~ In x (c_learners c3)) by (intros I; apply SL3, SL2 in I; exact (L1e _ I)).
+  assert (N3e : ~ In x (c_learners_next c3)) by (intros I; apply SN3, SN2 in I; exact (N1e _ I)).
+  pose proof (SO x) as SOx.
+  destruct (smem (c_outgoing c1) x) eqn:SM.
+  - assert (IO : In x (cs_voters_outgoing cs) /\ x <> 0) by (apply SOx; reflexivity).
+    split; split; intro G; intuition (try discriminate; auto).
+  - assert (NIO : ~ (In x (cs_voters_outgoing cs) /\ x <> 0)) by (intros G; apply SOx in G; discriminate).
+    split; split; intro G; intuition (try discriminate; auto).
+Qed.
+
+Example restore_learners_joint_somewhere :
+  match cc_restore (make_tracker 4 0) 10 (mkConfState [1;2;3] [4] [1;2;5] [5] true) with
+  | inl (c, p) => list_eqb N.eqb (c_learners c) [4] && list_eqb N.eqb (c_learners_next c) [5]
+  | inr _ => false
+  end = true.
+Proof. vm_compute. reflexivity. Qed.
